@@ -563,7 +563,10 @@ def src_expr(e, lay, need_suffix=False, top=True):
         return e[1] + s
     if k == "cast":
         s = src_expr(e[2], lay, True, False)
-        if e[2][0] in ("bin", "un", "cast") or (e[2][0] == "lit" and e[2][2] < 0): s = "(" + s + ")"
+        # a unary operator binds tighter than `as`: `-x as T` is `(-x) as T`; casts chain to the left
+        bare_unary = e[2][0] == "un" and e[2][2][0] in ("var", "lit", "paren") and not (e[2][2][0] == "lit" and e[2][2][2] < 0) and r.random() < 0.6
+        bare_cast = e[2][0] == "cast" and r.random() < 0.6
+        if (e[2][0] in ("bin", "un", "cast") and not bare_unary and not bare_cast) or (e[2][0] == "lit" and e[2][2] < 0): s = "(" + s + ")"
         return "%s as %s" % (s, e[1])
     if k == "call": return "%s(%s)" % (e[1], ", ".join(src_expr(a, lay, a[0] != "lit", True) for a in e[2]))
     if k == "paren": return "(" + src_expr(e[1], lay, True, True) + ")"
